@@ -53,6 +53,7 @@ type c18Rule struct {
 	Name        string      `json:"name"`
 	Expr        string      `json:"expr"`
 	For         string      `json:"for,omitempty"`
+	KeepFiring  string      `json:"keep_firing_for,omitempty"`
 	Labels      [][2]string `json:"labels,omitempty"`
 	HasLabels   bool        `json:"has_labels"`
 	Annotations [][2]string `json:"annotations,omitempty"`
@@ -67,6 +68,9 @@ func c18GenRule(r *rand.Rand) c18Rule {
 		ru.Kind = "alerting"
 		if r.Intn(2) == 0 {
 			ru.For = pick(r, []string{"5m", "0s", "1h"})
+		}
+		if r.Intn(3) == 0 {
+			ru.KeepFiring = pick(r, []string{"5m", "0s", "15m", "1d", "abc"})
 		}
 		if r.Intn(2) == 0 {
 			ru.HasAnn = true
@@ -100,6 +104,9 @@ func (ru c18Rule) yaml() string {
 		fmt.Fprintf(&b, "  - alert: %s\n    expr: %s\n", yamlStr(ru.Name), yamlStr(ru.Expr))
 		if ru.For != "" {
 			fmt.Fprintf(&b, "    for: %s\n", ru.For)
+		}
+		if ru.KeepFiring != "" {
+			fmt.Fprintf(&b, "    keep_firing_for: %s\n", ru.KeepFiring)
 		}
 	} else {
 		fmt.Fprintf(&b, "  - record: %s\n    expr: %s\n", yamlStr(ru.Name), yamlStr(ru.Expr))
@@ -351,6 +358,9 @@ var (
 	c18Re       = c18Pool{good: []string{".*", "foo.+", "a|b", "(x|y)z", "[a-z]+", "rules/.*", "\\d+", "\\Qa.b\\E.*", "(?i)cpu.*"}, bad: []string{"(", "[a", "*", "\\Qabc", "a{2,1}", "(?P<n>", "\\", ""}}
 	c18Tmpl     = c18Pool{good: []string{"{{ $alert }}.*", "{{ $labels.team }}", "[a{{ $alert }}]", "{{ $record }}|x", "({{ $alert }})", "{{ $alert }}{2}", "{{ $for }}.*"}, bad: []string{"{{ nope", "{{ .Foo }}", "{{ $expr }}", "{{ $alert", "{{ end }}"}}
 	c18Int      = c18Pool{good: []string{"0", "1", "5", "100"}, bad: []string{"-1"}}
+	// duration match expressions of match/ignore blocks: `<op> <duration>` with ONE space, or a bare duration
+	c18DurMatch = c18Pool{good: []string{"5m", "> 1m", "<= 5m", "!= 0s", "= 5m", ">= 1d", "< 1w", "0s"},
+		bad: []string{">15m", "~ 5m", "> x", "garbage", ">  5m", " 5m", "5m ", "> ", "=5m", "5", "-5m", "> 1m 2m", "1y1y", "<=", "== 5m"}}
 	c18Selector = c18Pool{good: []string{"foo", "{job=\"x\"}", "up{a=~\"b.*\"}"}, bad: []string{"foo{", "{}", "sum(foo)"}}
 )
 
@@ -407,8 +417,9 @@ func (g *c18Gen) matchBlock(kind string) string {
 	g.opt(&b, "    ", "kind", hclStr(g.choose([]string{"alerting", "recording"}, []string{"bogus"})), 0.3)
 	g.opt(&b, "    ", "command", hclStr(g.choose([]string{"lint", "ci", "watch", "lint"}, []string{"nope"})), 0.2)
 	g.opt(&b, "    ", "state", hclList(append(c08Subset18(g.r, []string{"any", "added", "modified", "renamed", "removed", "unmodified"}, 0.25), c08Subset18(g.r, []string{"bogus"}, g.badP)...)), 0.2)
-	g.opt(&b, "    ", "for", hclStr(g.choose([]string{"5m", "> 1m", "<= 5m", "!= 0s"}, []string{"~ 1m", "> x"})), 0.2)
-	g.opt(&b, "    ", "keep_firing_for", hclStr(pick(g.r, []string{"5m", "> 1m", "garbage", "~ 5m"})), 0.2)
+	g.opt(&b, "    ", "for", hclStr(g.choose(c18DurMatch.good, c18DurMatch.bad)), 0.2)
+	// keep_firing_for of a match block is not validated at load: every value class is an ACCEPTED configuration
+	g.opt(&b, "    ", "keep_firing_for", hclStr(pick(g.r, append(append([]string{}, c18DurMatch.good...), c18DurMatch.bad...))), 0.2)
 	if g.r.Intn(4) == 0 {
 		fmt.Fprintf(&b, "    label %s {\n      value = %s\n    }\n", g.plainRe(), g.plainRe())
 	}
@@ -718,6 +729,102 @@ func c18RunLimited(dir string, timeout time.Duration, args ...string) (int, stri
 	return rc, se
 }
 
+// c18ExerciserRules: one rule file in which EVERY match/ignore condition has a rule that reaches its comparison:
+// alerting rules with for / keep_firing_for (valid, zero, unparsable), labels, annotations, names with metacharacters,
+// an alerting rule with none of the optional fields, recording rules with and without labels, group labels.
+const c18ExerciserRules = `groups:
+- name: g
+  labels:
+    tier: "a|b"
+  rules:
+  - alert: "CPU [high"
+    expr: up == 0
+    for: 5m
+    keep_firing_for: 15m
+    labels:
+      team: "a|b"
+      severity: "x("
+    annotations:
+      summary: "CPU [high"
+      link: http://127.0.0.1:1/x
+  - alert: Bare
+    expr: up == 0
+  - alert: ZeroDurations
+    expr: up == 0
+    for: 0s
+    keep_firing_for: 0s
+    labels: {}
+    annotations: {}
+  - alert: OnlyKeepFiring
+    expr: up == 0
+    keep_firing_for: 1d
+  - alert: OnlyFor
+    expr: up == 0
+    for: 1h
+  - record: "z-a"
+    expr: sum(foo)
+    labels:
+      team: x
+  - record: plain:record
+    expr: sum(foo) by(job)
+`
+
+// c18MatchStratum: every condition of a match/ignore block x {valid, invalid, borderline} values x {match, ignore},
+// alone (systematic, every tier) — each crossed with c18ExerciserRules, a file in which that condition is reached by a
+// rule that has the field it looks at.  The oracle is the usual one: whatever `pint config` says about the value,
+// a later lint must not crash.
+func c18MatchStratum() []c18Scenario {
+	rePool := []string{".*", "CPU.*", "rules/.*", "a|b", "(x|y)z", `\Qa.b\E.*`, "(?i)cpu.*", `\QCPU`, "(", "[a", "*", "a{2,1}", `\`, "(?P<n>", "", "x{1001}", `\pX`, "(?i", "a**", "[[:nope:]]"}
+	durPool := append(append([]string{}, c18DurMatch.good...), c18DurMatch.bad...)
+	durPool = append(durPool, "")
+	type cond struct {
+		name string
+		vals []string // already HCL syntax
+	}
+	q := func(xs []string) []string {
+		out := make([]string, len(xs))
+		for i, x := range xs {
+			out[i] = hclStr(x)
+		}
+		return out
+	}
+	conds := []cond{
+		{"path", q(rePool)},
+		{"name", q(rePool)},
+		{"kind", q([]string{"alerting", "recording", "bogus", "", "Alerting", "invalid"})},
+		{"command", q([]string{"lint", "ci", "watch", "nope", ""})},
+		{"state", []string{`["any"]`, `["added", "modified"]`, `["unmodified"]`, `["renamed", "removed"]`, `[]`, `["bogus"]`, `[""]`, `["any", "any"]`}},
+		{"for", q(durPool)},
+		{"keep_firing_for", q(durPool)},
+	}
+	var out []c18Scenario
+	add := func(kind, body, tag string) {
+		cfg := fmt.Sprintf("rule {\n  %s {\n%s  }\n  label \"marker\" {\n    required = true\n  }\n}\n", kind, body)
+		out = append(out, c18Scenario{ID: fmt.Sprintf("match-%d-%s", len(out), tag), Config: cfg, Rules: c18ExerciserRules, Tags: []string{"match-stratum", tag}})
+	}
+	for _, kind := range []string{"match", "ignore"} {
+		for _, c := range conds {
+			for _, v := range c.vals {
+				add(kind, fmt.Sprintf("    %s = %s\n", c.name, v), kind+":"+c.name)
+			}
+		}
+		for _, blk := range []string{"label", "annotation"} {
+			for i, k := range rePool {
+				// key and value walk the pool at different offsets so that every entry is used in both positions
+				v := rePool[(i*7+3)%len(rePool)]
+				add(kind, fmt.Sprintf("    %s %s {\n      value = %s\n    }\n", blk, hclStr(k), hclStr(v)), kind+":"+blk)
+			}
+			add(kind, fmt.Sprintf("    %s \"team\" {\n    }\n", blk), kind+":"+blk+"-novalue")
+		}
+		// the duration conditions together (a helper shared between the two is the obvious refactoring)
+		for i, a := range durPool {
+			b := durPool[(i*5+2)%len(durPool)]
+			add(kind, fmt.Sprintf("    for = %s\n    keep_firing_for = %s\n", hclStr(a), hclStr(b)), kind+":for+keep_firing_for")
+		}
+	}
+	return out
+}
+
 type c18Known struct {
 	id    string
 	match func(sc c18Scenario, stderr string) bool
@@ -747,6 +854,11 @@ func c18Configs(r *rand.Rand, rep *runReport, cwd string, n int) {
 		{ID: "corpus-fixed-4008951-promql-label-name", Config: "parser {\n}\n", Rules: "groups:\n- name: g\n  rules:\n  - record: foo\n    expr: up{\"a(b\"=~\"x.*\"}\n"},
 	}
 	scens = append(scens, corpus...)
+	ms := c18MatchStratum()
+	for _, sc := range ms {
+		rep.hist("cfg:stratum=" + sc.Tags[1])
+	}
+	scens = append(scens, ms...)
 	for i := 0; i < n; i++ {
 		g := &c18Gen{r: r, badP: []float64{0, 0.05, 0.05, 0.25}[r.Intn(4)], used: map[string]bool{}}
 		cfg, hasProm := g.config(srv.URL)
